@@ -35,3 +35,16 @@ Qed.
 Theorem c12_any_history : forall c fs, ucase_wf c = true ->
   c12_spec_ok c (Ok (unit_recv (uc_kind c) (uc_u c) (ctx_after (uc_kind c) (uc_u c) fs) (uc_frame c))) = true.
 Proof. intros c fs. apply c12_any_context. Qed.
+
+(* frames from other senders yield no measurement (from the attribution theorem c11_holds) *)
+Theorem c12_foreign : forall c, ucase_wf c = true -> c12_foreign_ok c (unit_model c) = true.
+Proof.
+  intros c Hwf. pose proof (c11_holds c Hwf) as H.
+  destruct (unit_model c) as [r|] eqn:E; [|discriminate H].
+  unfold c11_spec_ok in H. unfold c12_foreign_ok.
+  repeat (apply andb_prop in H as [H ?]).
+  destruct (id_sa (f_id (uc_frame c)) =? u_da (uc_u c)) eqn:S; [reflexivity|].
+  cbn [negb implb]. rewrite implb_false_r in H.
+  unfold credited in H. destruct (r_sigs r); [reflexivity|].
+  rewrite !orb_true_r in H. discriminate H.
+Qed.
